@@ -245,7 +245,7 @@ func runC08(r resIface, c *c08case, cfg *e2eCfg, rng *prng.R) {
 	applyRef(ref, cmds, cfg, 1<<62)
 	want := expectedForward(cmds, cfg, 0)
 	wantData, _ := stripPings(want)
-	ok := waitUntil(6*time.Second, func() bool {
+	ok := waitUntil(30*time.Second, func() bool {
 		lg := e.DataLog()
 		got, _, _ := appliedCommands(lg, e.Src.Addr, incrConnOf(lg))
 		g, _ := stripPings(got)
